@@ -850,7 +850,48 @@ fn c14_text_vs_value(ctx: &mut Ctx) {
     }
 }
 
+/// The in-memory optimised rule against its serialised-and-reloaded copy. The copy is the
+/// unoptimised tree, so the two differ exactly where optimisation changed a verdict (C01's recorded
+/// findings): counted under KF-C14-optimised-verdict when the copy agrees with the plain rule,
+/// a violation otherwise.
+fn c14_optimised_vs_reloaded(ctx: &mut Ctx, known: &Known, name: &str, c: &CaseReq, from_corpus: bool) {
+    let rule = match Rule::from_value(implside::rule_value(c)) {
+        Ok(r) => r,
+        Err(_) => return,
+    };
+    let opt = rule.clone().optimise(implside::opts(15));
+    let back = match serde_yaml::to_string(&opt).ok().and_then(|t| Rule::from_str(&t).ok()) {
+        Some(b) => b,
+        None => return,
+    };
+    for d in &c.docs {
+        if let Some(m) = d.as_mapping() {
+            let (o, b, p) = (opt.matches(m), back.matches(m), rule.matches(m));
+            if o != b {
+                if b == p && known.has_family("C14", "C14-optimised-verdict") {
+                    ctx.stat("known-optimised-verdict");
+                    if from_corpus {
+                        if let Some(f) = known.by_witness("C14", name) {
+                            *ctx.known_hits.entry(f.id.clone()).or_insert(0) += 1;
+                        }
+                    } else {
+                        *ctx.known_hits.entry("random:C14-optimised-verdict".into()).or_insert(0) += 1;
+                    }
+                } else {
+                    let dummy = Exchange { line: format!("optimised-vs-reloaded {}", name), imp: String::new(), model: String::new(), agree: true, supported: false };
+                    ctx.violation("oracle", &format!("optimised rule gives {}, its serialised-and-reloaded copy {}, the plain rule {} on {}", o, b, p, serde_yaml::to_string(d).unwrap_or_default().replace('\n', " ")), &dummy, &rule_yaml(c), true);
+                }
+                break;
+            }
+        }
+    }
+}
+
 pub fn run_c14(ctx: &mut Ctx, _known: &Known) {
+    let known = _known;
+    for (name, c) in corpus_cases() {
+        c14_optimised_vs_reloaded(ctx, known, &name, &c, true);
+    }
     c14_text_vs_value(ctx);
     let n = budget(ctx, 1200, 30000);
     let tricky = ["*x", "?re", "'01'", "1", "true", "~", "0x1F", "1e3", "a\nb", "a\tb", " lead", "trail ", "- dash", "a: b", "#hash", "\"q\"", "'q'", "i*", "null", "NO", "0o7", "=1", ">=2.5", "{a}", "[a]", "a,b", "&x", "!t", "%p", "@a", "`b"];
@@ -868,6 +909,7 @@ pub fn run_c14(ctx: &mut Ctx, _known: &Known) {
             Some(p) if p.load == "ok" => p,
             _ => continue,
         };
+        c14_optimised_vs_reloaded(ctx, _known, &format!("random:{}", i), &c, false);
         let ry = rule_yaml(&c);
         let value = implside::rule_value(&c);
         let rule = match Rule::from_value(value.clone()) {
